@@ -115,7 +115,12 @@ func typed(p subj.Parser, names []string) []subj.PTok {
 		if n == "INVALID" {
 			out[i] = subj.PTok{Type: 0, Lit: "?"}
 		} else {
-			out[i] = subj.PTok{Type: p.Type(n), Lit: n}
+			lit := n
+			if (i+len(names))%5 == 0 {
+				// a long literal (debug traces like to abbreviate those)
+				lit = n + "_" + strings.Repeat("0123456789", 4)
+			}
+			out[i] = subj.PTok{Type: p.Type(n), Lit: lit}
 		}
 	}
 	return out
@@ -172,7 +177,7 @@ func evalC12(r *runner, u *c12Unit, c C12Case) string {
 			}
 			o := ps.NewSession().Parse(typed(ps, c.Toks), c.FailAt, true)
 			if obsKey(o) != obsKey(baseObs) || o.ErrString != baseObs.ErrString || (o.Panic == "") != (baseObs.Panic == "") {
-				return hd + fmt.Sprintf("tokens %v (fail_at %d): without flags\n  %s\n  %q\nwith %v\n  %s\n  %q", c.Toks, c.FailAt, obsKey(baseObs), baseObs.ErrString, c.Variants[v], obsKey(o), o.ErrString)
+				return hd + fmt.Sprintf("tokens %v (fail_at %d): without flags\n  %s\n  %q\nwith %v\n  %s\n  %q", c.Toks, c.FailAt, obsText(baseObs), baseObs.ErrString, c.Variants[v], obsText(o), o.ErrString)
 			}
 		}
 		r.col.Class("variant_" + v)
